@@ -45,6 +45,16 @@ func mk() []int {
 	m := []int{7, 8}
 	return m
 }
+func mk2(a int) []int {
+	m2 := []int{a, a + 1}
+	return m2
+}
+func sumv(p []int, q []int) int {
+	return p[0] + p[1] * 10 + q[0] * 100 + q[1] * 1000
+}
+func both(a int) ([]int, []int) {
+	return mk2(a), mk2(a + 2)
+}
 func join(a string, b string) string {
 	return a + b
 }
@@ -141,6 +151,11 @@ func CrossStmts() []Stmt {
 		S(2, true, "x,y=inc(y),inc(x)", "x, y = inc(y), inc(x)"),
 		S(2, true, "setf(v,0,x)", "setf(v, 0, x)"),
 		S(2, true, "v=mk()", "v = mk()"),
+		// several calls that return slices alive in one statement
+		S(3, true, "x=sumv(mk2,mk2)", "x = sumv(mk2(x), mk2(y))"),
+		S(3, true, "v,z=mk2,mk2", "v, z = mk2(1), mk2(5)"),
+		S(3, true, "v,z=both()", "v, z = both(y)"),
+		S(3, true, "x=len(mk2)+len(mk)", "x = len(mk2(1)) + len(mk()) + sumv(v, mk2(2))"),
 		// slices and strings
 		S(3, true, "v[0]=x", "v[0] = x"),
 		S(3, false, "v[len(v)]=y", "v[len(v)] = y"),
